@@ -203,7 +203,7 @@ def gen_step(sch, rnd, g, d, p, tk, prof, slices, kind=None):
         else:
             name = rnd.choice(["nope", "level", "a"])
             tag = "attr-declared" if name in declared else "attr-undeclared"
-        val = rnd.choice([1, 2, "x", None, [1, {"k": "v"}], {"a": [1]}, True, 1.5])
+        val = rnd.choice([1, 2, "x", None, [1, {"k": "v"}], {"a": [1]}, 2.5, 0, "", [], {}])
         return AttrStep(pos, name, val), tag
 
     # docAttr
@@ -214,7 +214,7 @@ def gen_step(sch, rnd, g, d, p, tk, prof, slices, kind=None):
     else:
         name = "nope"
         tag = "docAttr-undeclared"
-    val = rnd.choice([1, 2, "x", None, [1, {"k": "v"}], {"a": [1]}])
+    val = rnd.choice([1, 2, "x", None, [1, {"k": "v"}], {"a": [1]}, 0, "", []])
     return DocAttrStep(name, val), tag
 
 
